@@ -1032,6 +1032,15 @@ func (e *Env) evalOpaque(p *PureDecl, x *ECall) Val {
 	}
 	fn := fmt.Sprintf("op_%s_%d", p.Name, len(keys))
 	c.declFun(fn, strings.Join(sorts, " "), SBool)
+	bound := false
+	for _, a := range argTerms {
+		if strings.Contains(a, "!q") {
+			bound = true // instance under a quantifier: cannot be named or revealed at top level
+		}
+	}
+	if bound {
+		return boolVal(app(fn, terms...))
+	}
 	t := c.define("op_"+p.Name, SBool, app(fn, terms...))
 	if reveal {
 		key := "reveal:" + app(fn, terms...)
